@@ -195,4 +195,263 @@ MUTANTS: List[Dict[str, Any]] = [
         "checks": ["C10"],
         "edits": [{"file": "rp2/balance.py", "old": "            if transaction.timestamp.date() > to_date:\n                break", "new": "            if transaction.timestamp.date() > to_date:\n                break\n            if transaction.timestamp.date() < configuration.from_date:\n                continue"}],
     },
+    # ---- second batch -------------------------------------------------------------------------------------
+    {
+        "id": "lifo-key-not-negated",
+        "what": "LIFO sort key uses +timestamp (oldest first)",
+        "checks": ["C01"],
+        "edits": [{"file": "rp2/plugin/accounting_method/lifo.py", "old": "AcquiredLotSortKey(ZERO, -lot.timestamp.timestamp(), -lot.row)", "new": "AcquiredLotSortKey(ZERO, lot.timestamp.timestamp(), -lot.row)"}],
+    },
+    {
+        "id": "schedule-by-utc-year",
+        "what": "the method schedule is looked up with the UTC year instead of the event's own-timestamp year",
+        "checks": ["C01"],
+        "edits": [
+            {"file": AE, "old": "method = self._get_accounting_method(taxable_event.timestamp.year)", "new": "method = self._get_accounting_method(taxable_event.timestamp.astimezone(timezone.utc).year)"},
+            {"file": AE, "old": "self.__years_2_lot_candidates.find_max_value_less_than(taxable_event.timestamp.year)", "new": "self.__years_2_lot_candidates.find_max_value_less_than(taxable_event.timestamp.astimezone(timezone.utc).year)"},
+        ],
+    },
+    {
+        "id": "lot-exhaustion-swallowed",
+        "what": "running out of lots ends the matching silently instead of failing",
+        "checks": ["C02"],
+        "edits": [{"file": TE, "old": '        raise RP2ValueError("Total in-transaction crypto value < total taxable crypto value") from None', "new": "        pass"}],
+    },
+    {
+        "id": "transfer-disposes-sent-amount",
+        "what": "a transfer disposes of the whole sent amount instead of the fee only",
+        "checks": ["C03", "C02"],
+        "edits": [{"file": "rp2/intra_transaction.py", "old": "    def crypto_balance_change(self) -> RP2Decimal:\n        return self.crypto_fee", "new": "    def crypto_balance_change(self) -> RP2Decimal:\n        return self.crypto_sent"}],
+    },
+    {
+        "id": "es-period-366",
+        "what": "ES long-term period is 366 days",
+        "checks": ["C05"],
+        "edits": [{"file": "rp2/plugin/country/es.py", "old": "        return 365", "new": "        return 366"}],
+    },
+    {
+        "id": "fraction-count-ignores-to-date",
+        "what": "fraction numbering (k/n) counts fractions after the to-date",
+        "checks": ["C09"],
+        "edits": [{"file": "rp2/gain_loss_set.py", "old": "            if gain_loss.timestamp.date() > self.to_date:\n                break\n", "new": ""}],
+    },
+    {
+        "id": "to-date-exclusive",
+        "what": "to-date bound is exclusive",
+        "checks": ["C10"],
+        "edits": [{"file": "rp2/abstract_entry_set.py", "old": "if result.timestamp.date() > self.__entry_set.to_date:", "new": "if result.timestamp.date() >= self.__entry_set.to_date:"}],
+    },
+    {
+        "id": "parser-8-decimals",
+        "what": "numbers are read with 8 decimals",
+        "checks": ["C11"],
+        "edits": [{"file": "rp2/ods_parser.py", "old": 'RP2Decimal(f"{value:.11f}")', "new": 'RP2Decimal(f"{value:.8f}")'}],
+    },
+    {
+        "id": "parser-out-fiat-columns-swapped",
+        "what": "fiat_out_no_fee and fiat_fee of the out table are read from each other's column",
+        "checks": ["C11"],
+        "edits": [
+            {
+                "file": "rp2/configuration.py",
+                "old": '        return self.__get_table_constructor_argument_pack(data, "out", self.__out_header)',
+                "new": '        pack = self.__get_table_constructor_argument_pack(data, "out", self.__out_header)\n        if "fiat_out_no_fee" in pack and "fiat_fee" in pack:\n            pack["fiat_out_no_fee"], pack["fiat_fee"] = pack["fiat_fee"], pack["fiat_out_no_fee"]\n        return pack',
+            }
+        ],
+    },
+    {
+        "id": "parser-artificial-fee-dropped",
+        "what": "the crypto fee of an acquisition is not modelled as a fee-only out-transaction",
+        "checks": ["C11"],
+        "edits": [{"file": "rp2/ods_parser.py", "old": "        artificial_transaction_list.append(\n            OutTransaction(", "new": "        [].append(\n            OutTransaction("}],
+    },
+    {
+        "id": "parser-bad-row-skipped",
+        "what": "a row that fails validation is skipped with a warning instead of aborting the run",
+        "checks": ["C12"],
+        "edits": [
+            {
+                "file": "rp2/ods_parser.py",
+                "old": "            _create_and_process_transaction(configuration, row_values, current_table_type, i + 1, unfiltered_transaction_sets, artificial_transaction_list)",
+                "new": "            try:\n                _create_and_process_transaction(configuration, row_values, current_table_type, i + 1, unfiltered_transaction_sets, artificial_transaction_list)\n            except RP2ValueError as exc:\n                LOGGER.warning(\"skipping row %d: %s\", i + 1, exc)",
+            }
+        ],
+    },
+    {
+        "id": "out-holder-not-validated",
+        "what": "the holder of an out-transaction is not checked against the configured holders",
+        "checks": ["C12"],
+        "edits": [{"file": "rp2/out_transaction.py", "old": 'self.__holder: str = configuration.type_check_holder("holder", holder)', "new": 'self.__holder: str = configuration.type_check_string("holder", holder)'}],
+    },
+    {
+        "id": "from-after-to-accepted",
+        "what": "from-date later than to-date is accepted",
+        "checks": ["C12"],
+        "edits": [{"file": "rp2/configuration.py", "old": "        if self.__from_date > self.__to_date:\n            raise RP2ValueError(\"Parameter from_date cannot be greater than to_date\")", "new": "        pass"}],
+    },
+    {
+        "id": "detail-running-sum-wrong",
+        "what": "the running-sum column of the detail table shows the fraction amount",
+        "checks": ["C13"],
+        "edits": [{"file": "rp2/plugin/report/rp2_full_report.py", "old": "self._fill_cell(sheet, row_index, 2, computed_data.get_crypto_gain_loss_running_sum(gain_loss),", "new": "self._fill_cell(sheet, row_index, 2, gain_loss.crypto_amount,"}],
+    },
+    {
+        "id": "legend-from-date-stale",
+        "what": "the Legend never shows the from-date filter",
+        "checks": ["C13"],
+        "edits": [{"file": "rp2/plugin/report/abstract_ods_generator.py", "old": 'from_date if from_date != MIN_DATE else "non-specified"', "new": '"non-specified"'}],
+    },
+    {
+        "id": "detail-cost-shows-lot-amount-fraction-without-fee",
+        "what": "the cost-basis cell of the detail table leaves out the acquisition fee",
+        "checks": ["C13"],
+        "edits": [
+            {
+                "file": "rp2/plugin/report/rp2_full_report.py",
+                "old": "self.__get_hyperlinked_transaction_value(gain_loss.acquired_lot, gain_loss.fiat_cost_basis),",
+                "new": "self.__get_hyperlinked_transaction_value(gain_loss.acquired_lot, gain_loss.fiat_cost_basis - gain_loss.acquired_lot.fiat_fee * gain_loss.acquired_lot_fraction_percentage),",
+            }
+        ],
+    },
+    {
+        "id": "tax-report-row-counter-reset-per-asset",
+        "what": "the per-sheet row counter restarts for every asset (rows of earlier assets are overwritten)",
+        "checks": ["C14"],
+        "edits": [
+            {
+                "file": "rp2/plugin/report/us/tax_report_us.py",
+                "old": '        border_suffix: str = "_border"\n        for entry in gain_loss_set:',
+                "new": '        border_suffix: str = "_border"\n        for key in row_indexes:\n            row_indexes[key] = self.HEADER_ROWS\n        for entry in gain_loss_set:',
+            }
+        ],
+    },
+    {
+        "id": "tax-report-lost-on-capital-gains",
+        "what": "LOST fractions are routed to the Capital Gains sheet of the US report",
+        "checks": ["C14"],
+        "edits": [
+            {"file": "rp2/plugin/report/us/tax_report_us.py", "old": "    SheetNames.CAPITAL_GAINS.value: (TransactionType.SELL,),", "new": "    SheetNames.CAPITAL_GAINS.value: (TransactionType.SELL, TransactionType.LOST),"},
+            {"file": "rp2/plugin/report/us/tax_report_us.py", "old": "        TransactionType.FEE,\n        TransactionType.LOST,\n        TransactionType.MOVE,", "new": "        TransactionType.FEE,\n        TransactionType.MOVE,"},
+        ],
+    },
+    {
+        "id": "revert-FX3",
+        "what": "LOST missing from the IE sheet map (the defect fixed by FX3)",
+        "checks": ["C14", "C16"],
+        "edits": [{"file": "rp2/plugin/report/ie/tax_report_ie.py", "old": "        TransactionType.FEE,\n        TransactionType.LOST,\n        TransactionType.MOVE,", "new": "        TransactionType.FEE,\n        TransactionType.MOVE,"}],
+    },
+    {
+        "id": "open-positions-holder-balance-overwritten",
+        "what": "a holder's balance keeps only the last exchange instead of the sum",
+        "checks": ["C15"],
+        "edits": [{"file": "rp2/plugin/report/open_positions.py", "old": "asset_crypto_balance_holder[asset][balance_set.holder] += balance_set.final_balance", "new": "asset_crypto_balance_holder[asset][balance_set.holder] = balance_set.final_balance"}],
+    },
+    {
+        "id": "open-positions-cost-ignores-sold-part",
+        "what": "unrealized cost counts whole lots (sold percentage ignored)",
+        "checks": ["C15"],
+        "edits": [{"file": "rp2/plugin/report/open_positions.py", "old": 'in_transaction.fiat_in_with_fee * (RP2Decimal("1") - sold_percent)', "new": 'in_transaction.fiat_in_with_fee * (RP2Decimal("1") - sold_percent * RP2Decimal("0"))'}],
+    },
+    {
+        "id": "revert-FX2",
+        "what": "Summary links to a year row that the filtered detail table does not have (the defect fixed by FX2)",
+        "checks": ["C16"],
+        "edits": [{"file": "rp2/plugin/report/rp2_full_report.py", "old": "        if asset_and_year not in self.__tax_sheet_year_2_row:", "new": "        if False:"}],
+    },
+    {
+        "id": "assets-not-sorted",
+        "what": "assets are processed in set iteration order",
+        "checks": ["C17"],
+        "edits": [{"file": "rp2/rp2_main.py", "old": "            assets = list(configuration.assets)\n        assets.sort()", "new": "            assets = list(configuration.assets)"}],
+    },
+    {
+        "id": "engine-shared-across-assets",
+        "what": "the accounting engine object (and its per-year candidate structures) is reused across assets",
+        "checks": ["C17"],
+        "edits": [{"file": TE, "old": "new_accounting_engine: AccountingEngine = accounting_engine.__class__(accounting_engine.years_2_methods)", "new": "new_accounting_engine: AccountingEngine = accounting_engine"}],
+    },
+    {
+        "id": "report-depends-on-existing-file",
+        "what": "an existing report in the output directory is kept instead of being regenerated",
+        "checks": ["C17"],
+        "edits": [{"file": "rp2/plugin/report/rp2_full_report.py", "old": "        self._setup_text_data(country)\n\n        template_path: str = self._get_template_path(\"rp2_full_report\", country, generation_language)", "new": "        self._setup_text_data(country)\n        import os\n\n        if any(name.endswith(self.OUTPUT_FILE) for name in os.listdir(output_dir_path)):\n            return\n\n        template_path: str = self._get_template_path(\"rp2_full_report\", country, generation_language)"}],
+    },
+    {
+        "id": "update-check-in-main",
+        "what": "rp2_main tries to reach a server (update check), errors ignored",
+        "checks": ["C18"],
+        "edits": [
+            {
+                "file": "rp2/rp2_main.py",
+                "old": "    set_generation_language(args.generation_language)\n",
+                "new": "    set_generation_language(args.generation_language)\n    try:\n        import socket as _s\n\n        _s.create_connection((\"127.0.0.1\", 9), timeout=0.05).close()\n    except OSError:\n        pass\n",
+            }
+        ],
+    },
+    {
+        "id": "unused-network-import",
+        "what": "a module of the package imports urllib.request at top level (unused)",
+        "checks": ["C18"],
+        "edits": [{"file": "rp2/logger.py", "old": "import logging\nimport os\n", "new": "import logging\nimport os\nimport urllib.request  # noqa: F401\n"}],
+    },
+    {
+        "id": "cache-file-in-home",
+        "what": "a cache file is written to $HOME",
+        "checks": ["C18"],
+        "edits": [
+            {
+                "file": "rp2/rp2_main.py",
+                "old": "    set_generation_language(args.generation_language)\n",
+                "new": "    set_generation_language(args.generation_language)\n    with open(os.path.join(os.path.expanduser(\"~\"), \".rp2_last_run\"), \"w\", encoding=\"utf-8\") as _handle:\n        _handle.write(_VERSION)\n",
+            }
+        ],
+    },
+    {
+        "id": "version-via-subprocess",
+        "what": "rp2_main shells out (git describe) for its version string, errors ignored",
+        "checks": ["C18"],
+        "edits": [
+            {
+                "file": "rp2/rp2_main.py",
+                "old": "    set_generation_language(args.generation_language)\n",
+                "new": "    set_generation_language(args.generation_language)\n    try:\n        import subprocess as _sp\n\n        _sp.run([\"git\", \"describe\"], capture_output=True, check=False, timeout=2)\n    except Exception:  # pylint: disable=broad-except\n        pass\n",
+            }
+        ],
+    },
+    {
+        "id": "out-table-link-row-off-by-one",
+        "what": "links to out-transactions point one row too far",
+        "checks": ["C19"],
+        "edits": [{"file": "rp2/plugin/report/rp2_full_report.py", "old": "            self._fill_cell(sheet, row_index, 15, transaction.notes, visual_style=\"transparent\")\n\n            self.__in_out_sheet_transaction_2_row[transaction] = row_index + 1\n\n            row_index += 1\n\n        return row_index\n\n    def __generate_intra_table", "new": "            self._fill_cell(sheet, row_index, 15, transaction.notes, visual_style=\"transparent\")\n\n            self.__in_out_sheet_transaction_2_row[transaction] = row_index + 2\n\n            row_index += 1\n\n        return row_index\n\n    def __generate_intra_table"}],
+    },
+    {
+        "id": "revert-FX4",
+        "what": "transaction->row map survives across assets (the defect fixed by FX4)",
+        "checks": ["C19"],
+        "edits": [{"file": "rp2/plugin/report/rp2_full_report.py", "old": "        self.__in_out_sheet_transaction_2_row = {}\n", "new": ""}],
+    },
+    {
+        "id": "summary-links-to-last-row-of-year",
+        "what": "Summary lines link to the last gain/loss row of the year instead of the first",
+        "checks": ["C19"],
+        "edits": [{"file": "rp2/plugin/report/rp2_full_report.py", "old": "            if gain_loss.taxable_event.timestamp.year != year:\n                self.__tax_sheet_year_2_row", "new": "            if True:\n                self.__tax_sheet_year_2_row"}],
+    },
+    {
+        "id": "jp-chain-to-year-minus-one",
+        "what": "JP year sheets are chained to year-1 again (half of the defect fixed by FX5)",
+        "checks": ["C20"],
+        "edits": [{"file": "rp2/plugin/report/jp/tax_report_jp.py", "old": "previous_year_sheet_name: str = self.get_tax_sheet_name(asset, previous_year)", "new": "previous_year_sheet_name: str = self.get_tax_sheet_name(asset, year - 1)"}],
+    },
+    {
+        "id": "jp-years-in-first-seen-order",
+        "what": "JP year sheets are generated in first-seen order again (other half of FX5)",
+        "checks": ["C20"],
+        "edits": [{"file": "rp2/plugin/report/jp/tax_report_jp.py", "old": "        for year in sorted(years_2_transaction_sets):", "new": "        for year in years_2_transaction_sets:"}],
+    },
+    {
+        "id": "jp-out-fee-dropped",
+        "what": "JP report shows no fee for out-transactions paid in crypto",
+        "checks": ["C20"],
+        "edits": [{"file": "rp2/plugin/report/jp/tax_report_jp.py", "old": "        # Find the fee in yen\n        fee_in_yen: RP2Decimal = ZERO\n        if RP2Decimal(transaction.crypto_fee) > ZERO:\n            fee_in_yen = transaction.crypto_fee * transaction.spot_price\n        elif RP2Decimal(transaction.fiat_fee) > ZERO:\n            fee_in_yen = transaction.fiat_fee\n\n        # DONATE can be used", "new": "        # Find the fee in yen\n        fee_in_yen: RP2Decimal = ZERO\n\n        # DONATE can be used"}],
+    },
 ]
